@@ -184,6 +184,11 @@ theorem invB_step (c0 : Cfg) (hne : c0.incoming ≠ [] ∨ c0.outgoing ≠ []) (
     (hc : e.cfgOk c0) (h : applyEvent s e = .ok s')
     (hV : InvV c0 (vsys s)) (hR : InvR s) (hL : InvL s) (hA : InvA s) (hB : InvB c0 s) : InvB c0 s' := by
   cases e with
+  | read r =>
+    simp only [applyEvent, ok] at h
+    split at h
+    · cases h; exact ⟨hB.ll, hB.eq, hB.gto, hB.gt⟩
+    · cases h
   | bump i t =>
     simp only [applyEvent, ok] at h
     split at h
